@@ -213,6 +213,40 @@ def check_unify(payload):
                         out["violations"].append((k + ":bindings", "%s answers %s, the mgu gives %s" % (
                             progs_[k], r[0], [show(x) for x in inst])))
                         break
+    # the bindings of the head variables as the *body* of the clause sees them, together with those of the call
+    hv = []
+
+    def collect(t):
+        if t[0] == "v" and t[1] not in hv:
+            hv.append(t[1])
+        elif t[0] == "f":
+            for a in t[2]:
+                collect(a)
+    collect(rename(t1))
+    src = "h(%s, O) :- O = o(%s).\nu(O) :- h(%s, O0), O = p(O0, X, Y, Z)." % (show(rename(t1)), ",".join(hv) or "none", s2)
+    ref_h = refs["head"][0]
+    try:
+        e = DefaultEngine()
+        db = e.prepare(PrologString(src))
+        ans = [str(a[0]) for a in e.query(db, Term("u", None))]
+        st = "ok"
+    except Exception as ex:      # noqa
+        st, ans = "exc", classify_exception(ex)
+    if st == "exc":
+        if ans.startswith("internal:"):
+            out["violations"].append(("headbody:internal-exception", "%s raised %s" % (src, ans)))
+        elif ref_h is not None and not unifiable_only_modulo_quotes(rename(t1), t2):
+            out["violations"].append(("headbody:error", "%s raised %s; the head and the call unify" % (src, ans)))
+    elif ref_h is None:
+        if ans and not unifiable_without_occurs_check(rename(t1), t2):
+            out["violations"].append(("headbody:succeeds-without-unifier", "%s succeeds with %s" % (src, ans)))
+    elif len(ans) == 1:
+        exp = ("f", "p", [("f", "o", [apply(("v", v), ref_h) for v in hv] or [("c", "none")])] +
+               [apply(("v", v), ref_h) for v in VARS])
+        g2 = _listnorm(canon(ans[0]).replace("[", "LB").replace("]", "RB"))
+        e2 = _listnorm(canon(show(exp)).replace("[", "LB").replace("]", "RB"))
+        if g2 != e2:
+            out["violations"].append(("headbody:bindings", "%s answers %s, the mgu gives %s" % (src, ans[0], show(exp))))
     if refs["eq"][0] is not None:
         sigma = refs["eq"][0]
         for (i, vi), (j, vj) in itertools.combinations(enumerate(VARS), 2):
@@ -291,7 +325,8 @@ def run_c14(tier, seed):
     small = [("v", "X"), ("v", "Y"), ("c", "a"), ("c", "1"), ("c", "1.0"), ("f", "f", [("v", "X")]), ("f", "f", [("v", "Y")]),
              ("f", "g", [("v", "X"), ("v", "Y")]), ("f", "g", [("v", "Y"), ("v", "X")]), ("f", "g", [("v", "X"), ("v", "X")]),
              ("f", "g", [("f", "f", [("v", "Y")]), ("f", "f", [("v", "X")])]), ("f", "f", [("c", "a")]),
-             ("f", ".", [("v", "X"), ("v", "Y")]), ("f", ".", [("c", "a"), ("c", "[]")])]
+             ("f", ".", [("v", "X"), ("v", "Y")]), ("f", ".", [("c", "a"), ("c", "[]")]),
+             ("c", "'a'"), ("f", "f", [("c", "'a'")]), ("f", "g", [("c", "'a'"), ("c", "a")])]
     pairs += list(itertools.product(small, repeat=2))           # bounded-exhaustive core
     while len(pairs) < n:
         pairs.append((gen_term(rng, 2), gen_term(rng, 2)))
